@@ -311,7 +311,7 @@ def _words(template):
     return re.findall(r'[A-Za-z_$][A-Za-z_$0-9./]*', ''.join(ch if ord(ch) < PH0 else ' ' for ch in template))
 
 
-def h_chars(template, k, kind='dt', decl=('a', 'b'), consts=(), again=True):
+def h_chars(template, k, kind='dt', decl=('a', 'b'), consts=(), again=True, first=None):
     """template: specification text in which the code points U+E000.. mark k positions holding ARBITRARY characters"""
     consts = [tuple(c) for c in consts]
     cdict = {n: v for n, _, v in consts}
@@ -324,6 +324,10 @@ def h_chars(template, k, kind='dt', decl=('a', 'b'), consts=(), again=True):
             for c in cs:
                 env.assume(z3.And(z3.IsInt(c.r), c.r >= 0, c.r <= 0x10FFFF))
             s = _spec(kind, decl, consts)
+            if first is not None:
+                # the object has parsed ANOTHER text before (successfully or not): what it remembers must not change how this text fails
+                s.spec = first
+                _outcome(s)
             # rtamt handles the text as a str before it reaches the lexer (it appends the omitted trailing ';'); a placeholder is not
             # the character it stands for, so the characters such string operations look at - ';' and white space at either end of the
             # text - are decided by forks BEFORE parse() and written into the text; a placeholder left there stands for any other character
@@ -339,7 +343,7 @@ def h_chars(template, k, kind='dt', decl=('a', 'b'), consts=(), again=True):
             s.spec = tmpl
             with _Stubs():
                 _CUR['syms'] = cs
-                _CUR['names'] = sorted(set(decl) | set(cdict) | set(_words(tmpl)))
+                _CUR['names'] = sorted(set(decl) | set(cdict) | set(_words(tmpl)) | set(_words(first or '')))
                 out = _outcome(s)
                 st = _CUR['stream']
                 seen = list(st.data) if st is not None else None
@@ -354,6 +358,9 @@ def h_chars(template, k, kind='dt', decl=('a', 'b'), consts=(), again=True):
             codes = [int(c) for c in cs]
             text = ''.join(chr(codes[ord(ch) - PH0]) if 0 <= ord(ch) - PH0 < k else ch for ch in template)
             s = _spec(kind, decl, consts)
+            if first is not None:
+                s.spec = first
+                _outcome(s)
             s.spec = text
             out = _outcome(s)
             out2 = _outcome(s) if out == 'rej' and again else out
@@ -500,6 +507,13 @@ def obligations(tier, rng):
     # degenerate texts (no arbitrary character at all: the k = 0 members of the family)
     for t in ['', ' ', ';', '\n', ';;', '// c', '/* c */']:
         out.append(ob('C14', 'chars', 'char0/dt/%r' % t, template=t, k=0, kind='dt', validate=0))
+    # an object that has parsed another text before: names left behind by the first parse (assertion names, implicitly declared signals,
+    # sub-formula names) meet an arbitrary character in the second text
+    PH = chr(PH0)
+    for fi, (first, second) in enumerate([('out = a > 1', 'res = ' + PH + 'ut + 1'), ('out = a > 1', 'res = out' + PH + ' > 0'), ('p = once(a); out = p and b', 'out = ' + PH + ' or b'),
+                                           ('out = c > 1', 'out = ' + PH + ' + a'), ('out = always[0,K](a)', 'out = always[0,' + PH + '](a)'), ('out = a +', 'out = a ' + PH + ' b'),
+                                           ('x = a > 1; out = x.', 'out = x' + PH + ' > 0')]):
+        out.append(ob('C14', 'chars', 'reparse/%d/%r then %r' % (fi, first, second.replace(PH, '?')), template=second, k=1, kind='dt', first=first, max_paths=4000, wall=600, validate=1))
     # concrete endings of every template: exactly one ';' may close an assertion
     for ti, (kind, t, consts) in enumerate(temps):
         base = t[:-1] if t.endswith(';') else t
